@@ -49,7 +49,7 @@ func pBool(b bool) pval      { return pval{typ: "BOOLEAN", text: fmt.Sprint(b), 
 func pFloat(t string, pos bool) pval { return pval{typ: "FLOAT", text: t, truth: pos} }
 
 // host function kinds: what the function returns
-var c20FnKinds = []string{"echo", "int", "string", "bool-false", "null", "void", "float", "array", "hash", "count", "panic", "empty-string", "zero", "negative", "collect", "collect"}
+var c20FnKinds = []string{"regexp", "foreign", "echo", "int", "string", "bool-false", "null", "void", "float", "array", "hash", "count", "panic", "empty-string", "zero", "negative", "collect", "collect"}
 
 type c20Model struct {
 	// unspecified is set when the script used "nothing" (a void result)
@@ -90,6 +90,10 @@ func (m *c20Model) callResult(kind string, name string, args []pval) (pval, bool
 		return pval{typ: "ARRAY", text: "[1, two]", truth: true}, false
 	case "hash":
 		return pval{typ: "HASH", text: "{k: 1}", truth: true}, false
+	case "regexp":
+		return pval{typ: "REGEXP", text: "ab+", truth: true}, false
+	case "foreign":
+		return pval{typ: "FOREIGN", text: "<foreign 3>", truth: true}, false
 	case "count":
 		m.counts[name]++
 		return pInt(m.counts[name]), false
@@ -135,6 +139,10 @@ func (m *c20Model) eval(e *pexpr, fields map[string]pval) (pval, bool) {
 			args = append(args, v)
 		}
 		kind, ok := m.fns[e.name]
+		if !ok && e.name == "len" && len(args) == 1 && args[0].typ == "STRING" {
+			// the built-in, as long as the host has not registered its own
+			return pInt(int64(len([]rune(args[0].text)))), false
+		}
 		if !ok {
 			return pval{}, true // unknown function: run-time error
 		}
@@ -240,6 +248,9 @@ func (e *pexpr) text() string {
 		if e.lit.typ == "STRING" {
 			return "\"" + e.lit.text + "\""
 		}
+		if e.lit.typ == "REGEXP" {
+			return "/" + e.lit.text + "/"
+		}
 		return e.lit.text
 	case "var":
 		return e.name
@@ -292,6 +303,8 @@ func (g *c20Gen) lit() pval {
 	}
 }
 
+func pRegexp(t string) pval { return pval{typ: "REGEXP", text: t, truth: t != ""} }
+
 // value is what SetVariable may store: every type, null included.
 func (g *c20Gen) value() pval {
 	switch g.c.Intn(5) {
@@ -322,6 +335,11 @@ func (g *c20Gen) valueFn() string {
 
 // intOperand is an expression that certainly yields an integer.
 func (g *c20Gen) intOperand() *pexpr {
+	if g.c.Intn(5) == 1 {
+		// len of a string literal: the built-in, unless the host registered
+		// a function of that name
+		return &pexpr{kind: "call", name: "len", args: []*pexpr{{kind: "lit", lit: pStr([]string{"héllo", "", "abc"}[g.c.Intn(3)])}}}
+	}
 	if g.c.Intn(3) == 1 {
 		var names []string
 		for _, n := range c20FnNames {
@@ -341,6 +359,9 @@ func (g *c20Gen) intOperand() *pexpr {
 }
 
 func (g *c20Gen) expr(d int) *pexpr {
+	if g.c.Intn(12) == 1 {
+		return &pexpr{kind: "lit", lit: pRegexp([]string{"ab+", "^x", "a|b"}[g.c.Intn(3)])}
+	}
 	switch g.c.Intn(8) {
 	case 6:
 		if d <= 0 {
@@ -493,6 +514,10 @@ func c20Object(v pval) object.Object {
 		return &object.Float{Value: f}
 	case "ARRAY":
 		return &object.Array{Elements: []object.Object{&object.Integer{Value: 1}, &object.String{Value: "two"}}}
+	case "REGEXP":
+		return &object.Regexp{Value: v.text}
+	case "FOREIGN":
+		return &foreign{3}
 	case "HASH":
 		k := &object.String{Value: "k"}
 		return &object.Hash{Pairs: map[object.HashKey]object.HashPair{k.HashKey(): {Key: k, Value: &object.Integer{Value: 1}}}}
@@ -552,6 +577,11 @@ func (p *c20) runAPI(c *verifsim.Chooser, st *Stats, render bool) *Outcome {
 		g.fnKind[c20FnNames[i]] = c20FnKinds[c.Intn(len(c20FnKinds))]
 	}
 	g.useUF = c.Intn(3) == 1
+	lenKind := ""
+	if c.Intn(3) == 1 {
+		// the host overrides the built-in len (with an integer-valued function)
+		lenKind = []string{"int", "count", "zero"}[c.Intn(3)]
+	}
 	stmts, text := g.script()
 	o.Digest.Str(text)
 	model := &c20Model{vars: map[string]pval{}, fns: map[string]string{}, counts: map[string]int64{}}
@@ -596,6 +626,10 @@ func (p *c20) runAPI(c *verifsim.Chooser, st *Stats, render bool) *Outcome {
 			addFn(c20FnNames[i], g.fnKind[c20FnNames[i]])
 		}
 	}
+	if lenKind != "" && c.Bool() {
+		addFn("len", lenKind)
+		lenKind = ""
+	}
 	for i := c.Intn(3); i > 0; i-- {
 		setVar(c20VarNames[c.Intn(4)], g.value())
 	}
@@ -636,6 +670,9 @@ func (p *c20) runAPI(c *verifsim.Chooser, st *Stats, render bool) *Outcome {
 	}
 	if !prepare() {
 		return o
+	}
+	if lenKind != "" {
+		addFn("len", lenKind)
 	}
 	// functions registered after Prepare, variables set after Prepare
 	for i := 0; i < nf; i++ {
